@@ -116,8 +116,16 @@ func (packet *Packet) GetData() []byte {
 // (new_params_bind_flag is 0: the client relies on the types it sent with an earlier execution)
 var ErrParamTypesNotSent = errors.New("parameter types were not sent with the statement execution")
 
-// GetBindParameters returns packet Bind parameters
+// GetBindParameters returns the parameters of a COM_STMT_EXECUTE packet that carries their types.
 func (packet *Packet) GetBindParameters(paramNum int) ([]base.BoundValue, error) {
+	values, _, err := packet.GetBindParametersWithTypes(paramNum, nil)
+	return values, err
+}
+
+// GetBindParametersWithTypes returns the parameters of a COM_STMT_EXECUTE packet and their types (two bytes per
+// parameter). Clients send the types with the first execution of a statement only (new_params_bind_flag); for a
+// packet without them the types bound by an earlier execution are taken from boundTypes.
+func (packet *Packet) GetBindParametersWithTypes(paramNum int, boundTypes []byte) ([]base.BoundValue, []byte, error) {
 	// https://dev.mysql.com/doc/dev/mysql-server/latest/page_protocol_com_stmt_execute.html
 	// 1 - packet header
 	// 4 - stmt-id
@@ -134,7 +142,7 @@ func (packet *Packet) GetBindParameters(paramNum int) ([]base.BoundValue, error)
 		nullBitMapLength := (paramNum + 7) / 8
 		// NULL bitmap and new_params_bind_flag
 		if len(packet.data) < pos+nullBitMapLength+1 {
-			return nil, base_mysql.ErrMalformPacket
+			return nil, nil, base_mysql.ErrMalformPacket
 		}
 		if nullBitMapLength > 0 {
 			nullBitmap = packet.data[pos : pos+nullBitMapLength]
@@ -146,46 +154,55 @@ func (packet *Packet) GetBindParameters(paramNum int) ([]base.BoundValue, error)
 	}
 
 	values := make([]base.BoundValue, paramNum)
-	if !newParamsBindFlag {
-		if paramNum > 0 {
-			// the values can't be read (and protected) without their types
-			return nil, ErrParamTypesNotSent
-		}
-		return values, nil
+	if paramNum == 0 {
+		return values, nil, nil
 	}
 	pos += +1
 
-	//here we need to gather all provided param types
-	paramTypes := make([]byte, paramNum)
-	if len(packet.data) < pos+2*paramNum {
-		return nil, base_mysql.ErrMalformPacket
-	}
-	for i := 0; i < paramNum; i++ {
-		paramTypes[i] = packet.data[pos]
-		pos += 2
+	var types []byte
+	if newParamsBindFlag {
+		//here we need to gather all provided param types
+		if len(packet.data) < pos+2*paramNum {
+			return nil, nil, base_mysql.ErrMalformPacket
+		}
+		types = append([]byte{}, packet.data[pos:pos+2*paramNum]...)
+		pos += 2 * paramNum
+	} else {
+		// the values can't be read (and protected) without their types
+		if len(boundTypes) != 2*paramNum {
+			return nil, nil, ErrParamTypesNotSent
+		}
+		types = boundTypes
 	}
 
 	for i := 0; i < paramNum; i++ {
+		paramType := base_mysql.Type(types[2*i])
 		// i / 8 -- calculate byte number in bitmap
 		// i % 8 -- calculate bit number for current field
 		if len(nullBitmap) > 0 && nullBitmap[i/8]&(1<<(i%8)) > 0 {
-			values[i] = &mysqlBoundValue{data: nil, format: base.BinaryFormat, paramType: base_mysql.Type(paramTypes[i])}
+			values[i] = &mysqlBoundValue{data: nil, format: base.BinaryFormat, paramType: paramType}
 			continue
 		}
 
-		boundValue, n, err := NewMysqlBoundValue(packet.data[pos:], base.BinaryFormat, base_mysql.Type(paramTypes[i]))
+		boundValue, n, err := NewMysqlBoundValue(packet.data[pos:], base.BinaryFormat, paramType)
 		if err != nil {
-			return nil, err
+			return nil, nil, err
 		}
 		values[i] = boundValue
 		pos += n
 	}
 
-	return values, nil
+	return values, types, nil
 }
 
 // SetParameters updates statement parameters from Bind packet.
 func (packet *Packet) SetParameters(values []base.BoundValue) (err error) {
+	return packet.SetParametersWithTypes(values, nil)
+}
+
+// SetParametersWithTypes updates statement parameters from Bind packet. A packet that came without parameter
+// types (see GetBindParametersWithTypes) gets the types in force, boundTypes, as changed by the new values.
+func (packet *Packet) SetParametersWithTypes(values []base.BoundValue, boundTypes []byte) (err error) {
 	// If there are no parameters then don't bother.
 	if len(values) == 0 {
 		return nil
@@ -205,9 +222,23 @@ func (packet *Packet) SetParameters(values []base.BoundValue) (err error) {
 	resultData := make([]byte, len(packet.data[:pos]), len(packet.data))
 	copy(resultData, packet.data[:pos])
 
+	// the types follow the flag in the packet, or are the ones bound by an earlier execution; the packet
+	// is sent on with types in both cases
+	paramTypes := packet.data[pos:]
+	if resultData[pos-1] != 1 {
+		if len(boundTypes) != 2*len(values) {
+			return ErrParamTypesNotSent
+		}
+		paramTypes = append([]byte{}, boundTypes...)
+		resultData[pos-1] = 1
+	}
+	if len(paramTypes) < 2*len(values) {
+		return base_mysql.ErrMalformPacket
+	}
+
 	// params amount shift
 	for i := 0; i < len(values); i++ {
-		paramType := packet.data[pos : pos+2]
+		paramType := paramTypes[2*i : 2*i+2]
 		boundType := values[i].GetType()
 
 		// we need to check if the type was changed during tokenization
@@ -235,7 +266,6 @@ func (packet *Packet) SetParameters(values []base.BoundValue) (err error) {
 		}
 
 		resultData = append(resultData, paramType...)
-		pos += 2
 	}
 
 	for i := 0; i < len(values); i++ {
